@@ -22,17 +22,35 @@ def expand_name(line: str, char_pos: int) -> str:
     str
         Word regex match for the input column
     """
+    # Character literals are found from left to right: a quote of the other kind
+    # inside a literal does not start one ("it's")
+    quote = ""
+    start = 0
+    code = list(line)
+    for i, char in enumerate(line):
+        if quote:
+            code[i] = " "
+            if char == quote:
+                quote = ""
+                if start <= char_pos <= i + 1:
+                    return line[start : i + 1]
+        elif char in ("'", '"'):
+            quote = char
+            start = i
+            code[i] = " "
+    if quote:
+        # Not closed on this line (a literal continued from or onto another line)
+        code[start:] = line[start:]
     # The order here is important.
-    # WORD will capture substrings in logical and strings
+    # WORD will capture substrings in logical
+    code_line = "".join(code)
     regexs = [
         FRegex.LOGICAL,
-        FRegex.SQ_STRING,
-        FRegex.DQ_STRING,
         FRegex.WORD,
         FRegex.NUMBER,
     ]
     for r in regexs:
-        for num_match in r.finditer(line):
+        for num_match in r.finditer(code_line):
             if num_match.start(0) <= char_pos <= num_match.end(0):
                 return num_match.group(0)
     return ""
